@@ -120,6 +120,11 @@ static void crash_reporter(const char *cls, const char *sig) {
 	while (off < line.size()) { ssize_t w = write(1, line.data() + off, line.size() - off); if (w <= 0) break; off += (size_t)w; }
 }
 
+void enable_shipped_full_mem_model() {
+	model::Limits lim; lim.max_caches = 2; lim.max_datasets = 1; lim.allow_full_mem = true; lim.double_noise = false;
+	model::configure(lim);
+}
+
 void process_setup(const char *) {
 	seam::process_init();
 	seam::install_crash_handlers();
@@ -243,12 +248,18 @@ static void ds_check(RunState &rs, int i) {
 		for (auto &r : g.ranges) if (idx >= r.lo && idx < r.hi) best = std::max(best, r.key);
 		return best;
 	};
-	uint64_t checked = 0, poison_ok = 0;
+	uint64_t checked = 0, poison_ok = 0, skipped = 0;
 	int reported = 0;
+	const bool huge = g.pages.size() > 65536;
 	for (uintptr_t p : g.pages) {
 		uintptr_t a = std::max(p, mlo), b = std::min(p + PG, mhi);
 		for (uintptr_t x = a; x < b && reported < 4; x += 64) {
 			uint64_t idx = (x - mlo) / 64;
+			if (huge) { // a whole shipped-size dataset: every item near a call boundary, 1 in 16 of the others
+				bool near = false;
+				for (auto &r : g.ranges) if ((idx + 64 >= r.lo && idx < r.lo + 64) || (idx + 64 >= r.hi && idx < r.hi + 64)) { near = true; break; }
+				if (!near && (rt::mix64(idx, 0x5a) & 15) != 0) { ++skipped; continue; }
+			}
 			int src = provenance(idx);
 			uint8_t want[64];
 			if (src < 0) {
@@ -275,6 +286,7 @@ static void ds_check(RunState &rs, int i) {
 		}
 	}
 	rs.rep->probes["ds_items_checked"] += checked;
+	if (skipped) rs.rep->probes["ds_items_sampled_out"] += skipped;
 	rs.rep->probes["ds_poison_checked"] += poison_ok;
 	g.on = false;
 }
